@@ -36,6 +36,8 @@ CHECKS["C18"] = ("exploration", "5.C18", "multi-connection simulation with exact
   "Seeded search over connections moving among databases and running every command family on equal key names through all four execution paths (direct, MULTI/EXEC incl. queued SELECT, EVAL/EVALSHA, blocking pops completed later), WATCH across SELECT, FLUSHDB/FLUSHALL, invalid SELECTs and reconnects; replies, the 16-way dump and embedded database tags in returned values are checked. Histories are sampled.")
 CHECKS["C19"] = ("exploration", "5.C19", "seeded cursor iterations driven through the simulated server with churn of other elements scheduled between successive calls; oracle over the recorded iteration (returned union vs. elements present throughout / ever present)",
   "Seeded search over key sets (0-400 elements, all types), COUNT/MATCH/TYPE options and interleavings of additions and deletions between SCAN/HSCAN/SSCAN/ZSCAN calls; completeness, soundness w.r.t. filters, reply shape and termination are decided over each recorded iteration. Key sets, options and interleavings are sampled.")
+CHECKS["C09"] = ("exploration", "5.C09", "crash-restart simulation: the dataset is built through the real command path, SAVE, the simulated process is killed, virtual clocks advance by a chosen downtime, a fresh server instance is booted from the same simulated directory; canonical dumps before and after are compared",
+  "Seeded search over datasets (all six types, sizes at every length-encoding boundary up to 70000 elements, binary / marker / integer-like strings, all score classes, stream id limits, 16 databases, TTLs around the downtime) and downtimes; the oracle compares the stored dataset of the restarted process with the one saved, incl. deadlines to clock granularity. Datasets are unbounded, so they are sampled with forced boundary values.")
 NOT_APPLICABLE = []
 def main():
     import json as _j
